@@ -62,6 +62,11 @@ def _check(case, res, db):
         if res is not None:
             res.excluded["C03-right-join-on-true-to-cross"] += 1
         return []
+    if "CROSS JOIN" in sql and " LIMIT 1)" in sql and not case.get("strict"):
+        # known finding C03-cross-join-limit-1-eliminated
+        if res is not None:
+            res.excluded["C03-cross-join-limit-1-eliminated"] += 1
+        return []
     try:
         names0, rows0 = db.run(sql)
     except engines.EngineError as e:
@@ -146,7 +151,69 @@ def _attr(plan_name):
 
 
 @st.composite
+def guard_case(draw):
+    """Targeted shape: a derived table / CTE carrying one row-selecting feature under an outer predicate, join or aggregate.
+    Every optimizer guard (LIMIT, DISTINCT, GROUP BY, window, outer-join side, multi-reference CTE) sits on exactly this shape."""
+    q = queries.Q(draw, "optimizer", 1)
+    tname = draw(st.sampled_from(list(queries.SCHEMA)))
+    inner_scope = [("x2", queries.SCHEMA[tname])]
+    ic = [f"x2.{c}" for c, _ in queries.SCHEMA[tname]]
+    types = [t for _, t in queries.SCHEMA[tname]]
+    feature = draw(st.sampled_from(("limit", "limit", "distinct", "group", "window", "none", "const")))
+    where_in = f" WHERE {q.bool_expr(inner_scope, 1, False)}" if draw(st.booleans()) else ""
+    cols = [("o0", "int"), ("o1", "int"), ("o2", "text")]
+    if feature == "limit":
+        inner = f"SELECT {ic[0]} AS o0, {ic[1]} AS o1, {ic[2]} AS o2 FROM {tname} AS x2{where_in} ORDER BY o0{draw(st.sampled_from(('', ' DESC')))}, o1, o2 LIMIT {draw(st.integers(1, 2))}" + (f" OFFSET 1" if draw(st.integers(0, 3)) == 0 else "")
+    elif feature == "distinct":
+        inner = f"SELECT DISTINCT {ic[0]} AS o0, {q.int_expr(inner_scope, 1)} AS o1, {ic[2]} AS o2 FROM {tname} AS x2{where_in}"
+    elif feature == "group":
+        inner = f"SELECT {ic[0]} AS o0, {draw(st.sampled_from(('COUNT(*)', 'SUM(' + ic[1] + ')', 'MAX(' + ic[1] + ')')))} AS o1, MIN({ic[2]}) AS o2 FROM {tname} AS x2{where_in} GROUP BY {ic[0]}"
+    elif feature == "window":
+        inner = f"SELECT {ic[0]} AS o0, {draw(st.sampled_from(('COUNT(*)', 'SUM(' + ic[1] + ')', 'RANK()')))} OVER (PARTITION BY {ic[0]}{' ORDER BY ' + ic[1] if draw(st.booleans()) else ''}) AS o1, {ic[2]} AS o2 FROM {tname} AS x2{where_in}"
+        if "RANK() OVER (PARTITION BY " + ic[0] + ")" in inner:
+            inner = inner.replace("RANK() OVER (PARTITION BY " + ic[0] + ")", "RANK() OVER (PARTITION BY " + ic[0] + " ORDER BY " + ic[1] + ")")
+    elif feature == "const":
+        inner = f"SELECT {ic[0]} AS o0, {draw(st.sampled_from(('1', 'COALESCE(2, ' + ic[1] + ')', ic[1] + ' IS NULL')))} AS o1, 'k' AS o2 FROM {tname} AS x2{where_in}"
+        if "IS NULL" in inner:
+            inner = inner.replace(ic[1] + " IS NULL AS o1", f"CASE WHEN {ic[1]} IS NULL THEN 1 ELSE 0 END AS o1")
+    else:
+        inner = f"SELECT {ic[0]} AS o0, {q.int_expr(inner_scope, 1)} AS o1, {ic[2]} AS o2 FROM {tname} AS x2{where_in}"
+    as_cte = draw(st.integers(0, 2)) == 0
+    refs = draw(st.integers(1, 2)) if as_cte else 1
+    src = "c1 AS x1" if as_cte else f"({inner}) AS x1"
+    scope = [("x1", cols)]
+    t2 = draw(st.sampled_from(list(queries.SCHEMA)))
+    outer_kind = draw(st.sampled_from(("where", "where", "join", "join", "join-where", "agg", "from-right")))
+    feats = {f"guard:{feature}", f"guard-outer:{outer_kind}"} | ({"cte", "cte-ref"} if as_cte else {"derived"})
+    s3 = [("x3", queries.SCHEMA[t2])]
+    j3 = q.col(s3, "int")
+    side = draw(st.sampled_from(("JOIN", "LEFT JOIN", "RIGHT JOIN", "FULL JOIN")))
+    pred = draw(st.sampled_from((f"x1.o0 {draw(st.sampled_from(('>', '>=', '=', '<>', '<')))} {draw(st.integers(0, 2))}", f"x1.o1 {draw(st.sampled_from(('>', '=', '<')))} {draw(st.integers(0, 2))}", "x1.o1 IS NULL", "x1.o2 = 'a'", "x1.o0 IS NOT NULL")))
+    if outer_kind == "where":
+        sql = f"SELECT x1.o0 AS o0, x1.o1 AS o1 FROM {src} WHERE {pred}"
+    elif outer_kind == "join":
+        sql = f"SELECT x3.{queries.SCHEMA[t2][0][0]} AS o0, x1.o1 AS o1 FROM {t2} AS x3 {side} {src} ON {j3} = x1.o0"
+    elif outer_kind == "join-where":
+        sql = f"SELECT x3.{queries.SCHEMA[t2][0][0]} AS o0, x1.o1 AS o1 FROM {t2} AS x3 {side} {src} ON {j3} = x1.o0 WHERE {pred}"
+    elif outer_kind == "from-right":
+        sql = f"SELECT x3.{queries.SCHEMA[t2][0][0]} AS o0, x1.o1 AS o1 FROM {src} {side} {t2} AS x3 ON {j3} = x1.o0 WHERE {draw(st.sampled_from((pred, q.bool_expr(s3, 0, False))))}"
+    else:
+        sql = f"SELECT COUNT(*) AS o0, COUNT(DISTINCT x1.o1) AS o1 FROM {src} WHERE {pred}"
+    if refs == 2:
+        sql = f"SELECT y.o0 AS o0, y.o1 AS o1 FROM ({sql}) AS y CROSS JOIN c1 AS z WHERE z.o0 {draw(st.sampled_from(('=', '<')))} 1"
+        feats.add("cte:multi-ref")
+    if as_cte:
+        sql = f"WITH c1 AS ({inner}) {sql}"
+    feats |= q.f
+    return {"sql": sql, "tables": draw(queries.tables()), "features": sorted(feats), "ordered": False, "ncols": 2, "types": ["int", "int"]}
+
+
+@st.composite
 def cases(draw, depth, prefix_rate):
+    if draw(st.integers(0, 9)) < 3:
+        c = draw(guard_case())
+        c["prefixes"] = draw(st.integers(0, prefix_rate - 1)) == 0
+        return c
     c = draw(queries.case("optimizer", depth))
     c["prefixes"] = draw(st.integers(0, prefix_rate - 1)) == 0
     return c
